@@ -350,6 +350,15 @@ pub struct DnsEntry {
 }
 
 impl DnsEntry {
+    /// Same entry, the name compared without regard to (ASCII) letter case:
+    /// host names are looked up that way (RFC 6762 section 16).
+    fn eq_ignore_case(&self, other: &Self) -> bool {
+        self.ty == other.ty
+            && self.class == other.class
+            && self.cache_flush == other.cache_flush
+            && self.name.eq_ignore_ascii_case(&other.name)
+    }
+
     const fn new(name: String, ty: RRType, class: u16) -> Self {
         Self {
             name,
@@ -746,7 +755,7 @@ impl DnsRecordExt for DnsAddress {
     fn matches(&self, other: &dyn DnsRecordExt) -> bool {
         if let Some(other_a) = other.any().downcast_ref::<Self>() {
             return self.address == other_a.address
-                && self.record.entry == other_a.record.entry
+                && self.record.entry.eq_ignore_case(&other_a.record.entry)
                 && self.interface_id == other_a.interface_id;
         }
         false
